@@ -3030,7 +3030,8 @@ func (db *DatabaseCollectionWithUser) updateAndReturnDoc(ctx context.Context, do
 	if err != nil {
 		// For timeout errors, the write may or may not have succeeded so we cannot release the sequence as unused
 		if !base.IsTimeoutError(err) {
-			if docSequence > 0 {
+			// docSequence may already be listed in unusedSequences (a retry moved it there before failing)
+			if docSequence > 0 && !slices.Contains(unusedSequences, docSequence) {
 				if seqErr := db.sequences().releaseSequence(ctx, docSequence); seqErr != nil {
 					base.WarnfCtx(ctx, "Error returned when releasing sequence %d. Falling back to skipped sequence handling.  Error:%v", docSequence, seqErr)
 				}
